@@ -27,7 +27,7 @@ func (m *Mutex) Lock() {
 	}
 	// acquiring is one transition that is enabled while the lock is free (waiting for a held lock has no effect anyone
 	// can observe, so it is not a separate step)
-	vsched.PointWhen("lock", func() bool { return !m.locked }, 0)
+	vsched.PointWhenObj("lock", func() bool { return !m.locked }, 0, m)
 	m.locked = true
 	m.owner = vsched.ThreadID()
 }
@@ -36,7 +36,7 @@ func (m *Mutex) TryLock() bool {
 	if !vsched.Active() {
 		return m.real.TryLock()
 	}
-	vsched.Point("trylock")
+	vsched.PointObj("trylock", m)
 	if m.locked {
 		return false
 	}
@@ -56,8 +56,10 @@ func (m *Mutex) Unlock() {
 	if !m.locked {
 		panic("sync: unlock of unlocked mutex")
 	}
+	// the scheduling point comes before the release: what follows it (the release and the thread's own code up to its
+	// next scheduling operation) touches only this mutex; threads waiting for it are disabled until then either way
+	vsched.PointObj("unlock", m)
 	m.locked = false
-	vsched.Point("unlock")
 }
 
 // RWMutex mirrors sync.RWMutex (writer preference is not modelled: a reader may enter whenever no writer holds it).
@@ -75,7 +77,7 @@ func (m *RWMutex) Lock() {
 		m.real.Lock()
 		return
 	}
-	vsched.PointWhen("lock", func() bool { return !m.writer && m.readers == 0 }, 0)
+	vsched.PointWhenObj("lock", func() bool { return !m.writer && m.readers == 0 }, 0, m)
 	m.writer = true
 }
 
@@ -90,8 +92,8 @@ func (m *RWMutex) Unlock() {
 	if !m.writer {
 		panic("sync: Unlock of unlocked RWMutex")
 	}
+	vsched.PointObj("unlock", m)
 	m.writer = false
-	vsched.Point("unlock")
 }
 
 func (m *RWMutex) RLock() {
@@ -102,7 +104,7 @@ func (m *RWMutex) RLock() {
 		m.real.RLock()
 		return
 	}
-	vsched.PointWhen("rlock", func() bool { return !m.writer }, 0)
+	vsched.PointWhenObj("rlock", func() bool { return !m.writer }, 0, m)
 	m.readers++
 }
 
@@ -117,15 +119,15 @@ func (m *RWMutex) RUnlock() {
 	if m.readers <= 0 {
 		panic("sync: RUnlock of unlocked RWMutex")
 	}
+	vsched.PointObj("runlock", m)
 	m.readers--
-	vsched.Point("runlock")
 }
 
 func (m *RWMutex) TryLock() bool {
 	if !vsched.Active() {
 		return m.real.TryLock()
 	}
-	vsched.Point("trylock")
+	vsched.PointObj("trylock", m)
 	if m.writer || m.readers > 0 {
 		return false
 	}
@@ -155,7 +157,7 @@ func (o *Once) Do(f func()) {
 		o.real.Do(f)
 		return
 	}
-	vsched.Point("once")
+	vsched.PointObj("once", o)
 	if o.done {
 		return
 	}
@@ -185,11 +187,11 @@ func (w *WaitGroup) Add(d int) {
 		w.real.Add(d)
 		return
 	}
+	vsched.PointObj("wg.add", w)
 	w.n += d
 	if w.n < 0 {
 		panic("sync: negative WaitGroup counter")
 	}
-	vsched.Point("wg.add")
 }
 
 func (w *WaitGroup) Done() { w.Add(-1) }
@@ -202,7 +204,7 @@ func (w *WaitGroup) Wait() {
 		w.real.Wait()
 		return
 	}
-	vsched.PointWhen("wg.wait", func() bool { return w.n == 0 }, 0)
+	vsched.PointWhenObj("wg.wait", func() bool { return w.n == 0 }, 0, w)
 }
 
 // Cond mirrors sync.Cond (waiters are woken in FIFO order, as the runtime's notify list does).
@@ -234,7 +236,7 @@ func (c *Cond) Wait() {
 	t := &condTicket{}
 	c.waiters = append(c.waiters, t)
 	c.L.Unlock()
-	vsched.PointWhen("cond.wait", func() bool { return t.woken }, 0)
+	vsched.PointWhenObj("cond.wait", func() bool { return t.woken }, 0, c)
 	c.L.Lock()
 }
 
@@ -246,7 +248,7 @@ func (c *Cond) Signal() {
 		c.realCond().Signal()
 		return
 	}
-	vsched.Point("cond.signal")
+	vsched.PointObj("cond.signal", c)
 	if len(c.waiters) > 0 {
 		c.waiters[0].woken = true
 		c.waiters = c.waiters[1:]
@@ -261,7 +263,7 @@ func (c *Cond) Broadcast() {
 		c.realCond().Broadcast()
 		return
 	}
-	vsched.Point("cond.broadcast")
+	vsched.PointObj("cond.broadcast", c)
 	for _, w := range c.waiters {
 		w.woken = true
 	}
